@@ -51,5 +51,6 @@ Emit == "EMIT" \in DOMAIN IOEnv /\ IOEnv.EMIT = "1"
 \* one line per reachable history: the operations and what must be observed after the last one
 EmitHist == (Emit /\ alive) =>
   PrintT(ToJson([shape |-> shape, ops |-> hist, exact |-> Exact(shape), fs |-> fs, lo |-> lo,
-                 keys_unset |-> KeysUnset, keys_all |-> KeysAll]))
+                 keys_unset |-> KeysUnset, keys_all |-> KeysAll,
+                 orig |-> [has |-> orig.has, fs |-> orig.fs, lo |-> orig.lo]]))
 =============================================================================
